@@ -75,6 +75,15 @@ def session_lines(rng, kind, cfg_valid_dir, bad_dir, cfgA, nodesA, fi):
     if kind == 'silent':
         ls += ['bus mode silent', 'debug 0', f'start {cfg_valid_dir} {fi}']
         return ls, 1
+    if kind == 'silentnew':
+        # the interface never answers the magic request, but announces a configured track output (MSG_NODE_NEW) while the library is probing:
+        # the start fails with a board connected, "stopping after a failed start" has somebody to command
+        tob = rng.choice([b for b in cfgA['boards'] if cfggen.is_track_output(b)])
+        la = rng.randrange(1, 120)
+        data = bytes([rng.randrange(1, 200), la]) + tob['uid']
+        ls += ['bus mode silent', f'bus inject {C("MSG_SYS_GET_MAGIC"):02x} 1 {model.build_msg((0, 0, 0), 0, C("MSG_NODE_NEW"), data).hex()}', 'debug 0',
+               f'mark failnew:{la}', f'start {cfg_valid_dir} {fi}' if rng.random() < 0.6 else f'start_serial /dev/simbus {cfg_valid_dir} {fi}']
+        return ls, 1
     if kind == 'badcfg':
         ls += cfggen.bus_lines(cfgA, nodesA) + ['debug 0', f'start {bad_dir} {fi}']
         return ls, 1
@@ -113,7 +122,7 @@ def gen_scenario(ctx, k):
             sessions.append(('normal', exp, fi))
     else:
         for i in range(rng.randrange(1, 6)):
-            kind = rng.choice(['normal', 'normal', 'serial', 'serial', 'debug', 'silent', 'badcfg', 'nullcb', 'nodevice'])
+            kind = rng.choice(['normal', 'normal', 'serial', 'serial', 'debug', 'silent', 'silentnew', 'silentnew', 'badcfg', 'nullcb', 'nodevice'])
             fi = rng.choice([0, 0, 1, 3])
             ls, exp = session_lines(rng, kind, dA, dB, cfgA, nodesA, fi)
             sc.add(f'mark sess{i}', *ls)
@@ -216,6 +225,46 @@ def check_stop_transcripts(ctx, r, cfg, nodes, meta):
         i += 1
     return nstops
 
+def check_failed_starts(ctx, r, cfg, meta):
+    """a start that fails after a configured track output logged on (injected MSG_NODE_NEW, acknowledged by the library): the shutdown
+    sequence is owed to that node before the threads are joined"""
+    ev = r.events
+    for mi, e in enumerate(ev):
+        if e.get('e') != 'mark' or not str(e.get('m', '')).startswith('failnew:'):
+            continue
+        la = int(e['m'].split(':')[1])
+        ci = next((k for k in range(mi, len(ev)) if ev[k].get('e') == 'call' and ev[k].get('f') == 'bidib_start_pointer'), None)
+        ri = next((k for k in range(mi, len(ev)) if ev[k].get('e') == 'ret' and ev[k].get('f') == 'bidib_start_pointer'), None)
+        if ci is None or ri is None or ev[ri].get('r') != 1:
+            continue
+        seg = ev[ci:ri]
+        acked = any(x.get('e') == 'txm' and x['type'] == C('MSG_NODE_CHANGED_ACK') for x in seg)
+        if not acked:
+            ctx.count('failed_start_node_new_not_processed')
+            continue
+        ctx.count('failed_starts_with_connected_track_output')
+        a = (la, 0, 0)
+        tx = [(k, x['type'], bytes.fromhex(x['data'])) for k, x in enumerate(seg) if x.get('e') == 'txm' and tuple(x['addr']) == a]
+        soft = [k for k, t, d in tx if t == C('MSG_CS_SET_STATE') and d == b'\x02']
+        off = [k for k, t, d in tx if t == C('MSG_CS_SET_STATE') and d == b'\x00']
+        drv = sorted(d for k, t, d in tx if t == C('MSG_CS_DRIVE'))
+        drv_i = [k for k, t, d in tx if t == C('MSG_CS_DRIVE')]
+        exp_drv = sorted(bytes([t['addr'][1], t['addr'][0], {14: 0, 28: 2, 126: 3}[t['steps']], 0, 0, 0, 0, 0, 0]) for t in cfg['trains'])
+        joins = [k for k, x in enumerate(seg) if x.get('e') == 'thr_join']
+        what = None
+        if len(soft) != 1 or len(off) != 1:
+            what = f'soft-stop x{len(soft)}, track-off x{len(off)} to the track output {a} that logged on during the failed start'
+        elif drv != exp_drv:
+            what = f'zero-speed commands {len(drv)} of {len(exp_drv)} trains to {a}'
+        elif not (soft[0] < min(drv_i + [off[0]]) and max(drv_i + [soft[0]]) < off[0]):
+            what = 'soft-stop, train reset and track-off are not in this order'
+        elif joins and off[0] > min(joins):
+            what = 'shutdown traffic reached the wire only after the threads were joined'
+        if what:
+            ctx.violation('shutdown-sequence', 'failed-start', f'failed start (silent interface, MSG_NODE_NEW for a configured track output acknowledged): {what}', r.scenario, r.flavour, meta)
+            return False
+    return True
+
 def evaluate(ctx, r, rf, cfg, nodes, sessions, mode, meta):
     if ctx.generic_failures(r, meta) or ctx.generic_failures(rf, meta):
         return
@@ -280,6 +329,8 @@ def evaluate(ctx, r, rf, cfg, nodes, sessions, mode, meta):
             if cur_fi is not None and e['us'] != 1000 * cur_fi:
                 ctx.violation('auto-flush-period', 'session', f'the auto-flush thread of a session started with flush_interval {cur_fi} ms sleeps {e["us"]} us per round', r.scenario, r.flavour, meta)
                 return
+    if not check_failed_starts(ctx, r, cfg, meta):
+        return
     ns = check_stop_transcripts(ctx, r, cfg, nodes, meta)
     if ns is False:
         return
